@@ -3,19 +3,19 @@ module mcverif
 go 1.22.4
 
 require (
+	github.com/CycloneDX/cyclonedx-go v0.9.0
 	github.com/protobom/protobom v0.0.0
 	github.com/sirupsen/logrus v1.9.3
+	github.com/spdx/tools-golang v0.5.5
 	google.golang.org/protobuf v1.34.2
 )
 
 require (
-	github.com/CycloneDX/cyclonedx-go v0.9.0 // indirect
 	github.com/anchore/go-struct-converter v0.0.0-20230627203149-c72ef8859ca9 // indirect
 	github.com/blang/semver/v4 v4.0.0 // indirect
 	github.com/common-nighthawk/go-figure v0.0.0-20210622060536-734e95fb86be // indirect
 	github.com/google/go-cmp v0.6.0 // indirect
 	github.com/google/uuid v1.6.0 // indirect
-	github.com/spdx/tools-golang v0.5.5 // indirect
 	github.com/spf13/cobra v1.8.0 // indirect
 	github.com/spf13/pflag v1.0.5 // indirect
 	golang.org/x/sys v0.20.0 // indirect
